@@ -585,7 +585,7 @@ pub struct PreNew {
     pub saw_collection: std::cell::Cell<bool>,
     exec0: usize,
     expected0: u64,
-    predicted: Option<bool>,
+    pub predicted: Option<bool>,
     auto: bool,
     allocated: usize,
     buffered: usize,
